@@ -39,7 +39,7 @@ DEP_MESSAGES = [".google.protobuf.Timestamp", ".google.protobuf.Duration", ".goo
                 ".google.protobuf.Int32Value", ".google.protobuf.StringValue", ".google.protobuf.BoolValue",
                 ".google.protobuf.Empty", ".google.type.Date", ".google.type.LatLng", ".google.type.Money",
                 ".google.rpc.Status", ".google.type.Expr", ".google.iam.v1.Policy"]
-DEP_ENUMS = [".google.rpc.Code", ".google.type.DayOfWeek", ".google.protobuf.NullValue"]
+DEP_ENUMS = [".google.rpc.Code", ".google.type.DayOfWeek"]   # NullValue has a JSON special form (null), not a plain enum
 DEP_REQUESTS = [".google.protobuf.Empty", ".google.protobuf.Struct", ".google.iam.v1.GetIamPolicyRequest",
                 ".google.iam.v1.SetIamPolicyRequest", ".google.iam.v1.TestIamPermissionsRequest",
                 ".google.longrunning.GetOperationRequest", ".google.longrunning.ListOperationsRequest",
@@ -208,7 +208,7 @@ class Builder:
     def type_ref(self, fileidx, kind, self_full=None):
         """Pick a message/enum type visible from file `fileidx`."""
         if self.coin("p_dep_type"):
-            return self.d(st.sampled_from(DEP_MESSAGES if kind == "message" else DEP_ENUMS))
+            return self.d(st.sampled_from((self.p.get("dep_messages") or DEP_MESSAGES) if kind == "message" else DEP_ENUMS))
         cands = [t for t in self.pool if t["kind"] == kind and t["file"] <= fileidx]
         if self.cur_pkg != self.root and not self.p.get("allow_sub_to_root_refs"):
             # known finding F-subpackage-import-cycle: a sub-package file referencing a root-package type
@@ -243,10 +243,12 @@ class Builder:
             else:
                 f["map_value"] = {"type": vk, "type_name": self.type_ref(fileidx, vk, self_full)}
         if f["type"] != "map":
-            if self.coin("p_repeated"):
+            if self.coin("p_repeated") and (f["type"] != "message" or self.p.get("repeated_messages", True)):
                 f["repeated"] = True
             elif self.coin("p_optional"):
                 f["optional"] = True
+            elif self.p.get("required_fields") and self.coin("p_required"):
+                f["required"] = True
         c = self.comment()
         if c:
             f["comment"] = c
@@ -330,25 +332,27 @@ class Builder:
         self.resources.append({"type": m["resource"]["type"], "patterns": pats, "msg_full": "." + full})
 
     # -- methods -----------------------------------------------------------
-    def string_paths(self, msg, fileidx, prefix="", depth=0):
+    def string_paths(self, msg, fileidx, prefix="", depth=0, no_oneof=False):
         """Dotted paths to singular string fields reachable through singular local message fields."""
         out = []
         for f in msg["fields"]:
             if f.get("repeated") or f["type"] == "map":
                 continue
+            if no_oneof and f.get("oneof"):
+                continue      # members of one oneof exclude each other: not usable together as path variables
             if f["type"] == "string":
                 out.append((prefix + f["name"], f))
             elif f["type"] == "message" and depth < 2:
                 sub = next((t["msg"] for t in self.pool if t["full"] == f["type_name"] and t["msg"] is not None), None)
                 if sub is not None and sub is not msg:
-                    out.extend(self.string_paths(sub, fileidx, prefix + f["name"] + ".", depth + 1))
+                    out.extend(self.string_paths(sub, fileidx, prefix + f["name"] + ".", depth + 1, no_oneof))
         return out
 
     def http_rule(self, req, fileidx, verb=None, allow_body=True):
-        paths = self.string_paths(req, fileidx)
+        paths = self.string_paths(req, fileidx, no_oneof=True)
         verb = verb or self.d(st.sampled_from(["get", "post", "post", "put", "patch", "delete"]))
         segs = ["v1"]
-        nvars = self.d(st.integers(0, min(3, len(paths)))) if paths else 0
+        nvars = min(len(paths), self.d(st.sampled_from([0, 1, 1, 2, 2, 3]))) if paths else 0
         chosen = []
         if nvars:
             idxs = self.d(st.lists(st.integers(0, len(paths) - 1), min_size=nvars, max_size=nvars, unique=True))
@@ -377,8 +381,9 @@ class Builder:
             if b <= 1:
                 rule["body"] = "*"
             elif b == 2:
-                tops = [f for f in req["fields"] if f["type"] == "message" and not f.get("repeated")
-                        and f["name"] not in [c.split(".")[0] for c in chosen]]
+                # the body field may contain a path variable ({book.name=...} with body: "book" is the usual Update shape)
+                tops = [f for f in req["fields"] if f["type"] == "message" and not f.get("repeated") and not f.get("oneof")
+                        and f["name"] not in [c for c in chosen if "." not in c]]
                 if tops:
                     rule["body"] = self.d(st.sampled_from([f["name"] for f in tops]))
         return rule, chosen
@@ -511,11 +516,35 @@ class Builder:
         if req is not None:
             if self.coin("p_http"):
                 rule, chosen = self.http_rule(req, fileidx, verb={"Get": "get", "List": "get", "Delete": "delete", "Update": "patch"}.get(verb))
+                for c in chosen:       # path fields are usually REQUIRED (AIP-203)
+                    if "." not in c and _p(self.draw, self.p.get("p_path_required", 0.0)):
+                        fld = next(x for x in req["fields"] if x["name"] == c)
+                        if not fld.get("oneof") and not fld.get("optional"):
+                            fld["required"] = True
                 if self.coin("p_additional"):
                     rule["additional"] = []
                     for _ in range(self.d(st.integers(1, 2))):
                         r2, _c = self.http_rule(req, fileidx)
+                        if not self.p.get("allow_additional_binding_mismatch"):
+                            # known finding F-rest-additional-bindings: the REST transport derives body handling and
+                            # required-field defaults from the PRIMARY binding only
+                            if r2.get("body") != rule.get("body"):
+                                self.excluded.append("F-rest-additional-bindings")
+                                r2.pop("body", None)
+                                if rule.get("body"):
+                                    r2["body"] = rule["body"]
+                                    if r2["verb"] in ("get", "delete"):
+                                        r2["verb"] = "post"
+                                body_top = rule.get("body")
+                                if body_top and body_top != "*" and any(v == body_top for v in T_variables(r2["uri"])):
+                                    continue
+                            if any(f.get("required") for f in req["fields"]):
+                                self.excluded.append("F-rest-additional-bindings")
+                                for f in req["fields"]:
+                                    f.pop("required", None)
                         rule["additional"].append(r2)
+                    if not rule["additional"]:
+                        del rule["additional"]
                 meth["http"] = rule
             if self.coin("p_sig") and not meth.get("cs"):
                 sigs = []
@@ -583,7 +612,8 @@ class Builder:
         fields, num = [], 1
         def rep():
             nonlocal num
-            kind = self.d(st.sampled_from(["message", "message", "string", "int32", "enum", "map", "bytes"]))
+            kind = self.d(st.sampled_from((["message", "message"] if self.p.get("repeated_messages", True) else []) + ["string", "int32", "enum", "bytes"]
+                                          + ([] if self.p.get("p_map", 1) == 0 else ["map"])))
             f = {"name": ["items", "extras", "more"][len([x for x in fields if x.get("repeated") or x["type"] == "map"]) % 3], "number": num}
             if kind == "map":
                 f.update({"type": "map", "map_key": self.d(st.sampled_from(["string", "int32"])),
@@ -695,6 +725,11 @@ class Builder:
         if self.excluded:
             api["_excluded"] = sorted(set(self.excluded))
         return api
+
+
+def T_variables(uri):
+    import re
+    return [m.group(1) for m in re.finditer(r"\{([A-Za-z0-9_.]+)(?:=[^}]*)?\}", uri)]
 
 
 def _free_number(fields):
